@@ -123,9 +123,10 @@ def v3_tables(tier, seed, minor):
     req64 = [dim("3", m, absent=True) for m in ["CR", "IR", "AR"]]
     req27 = [dim("3", m) for m in ["CR", "IR", "AR"]]
     mod = [dim("3", m) for m in ["MAV", "MAC", "MPR", "MUI", "MS", "MC", "MI", "MA"]]
-    # T0: all 2 592 base x 100 temporal spellings, and its transpose (for monotonicity in the base metrics)
+    # T0: all 2 592 base x 100 temporal spellings, in two layouts so that every base and temporal metric is
+    # an inner dimension once (monotonicity) while rows stay large
     tabs.append(header("3", minor, {}, b5, cia + tmp_sp))
-    tabs.append(header("3", minor, {}, cia + tmp_sp, b5))
+    tabs.append(header("3", minor, {}, tmp_sp, b5 + cia))
     t48 = list(itertools.product("UPFH", "OTWU", "URC"))
     baseU = {"AV": "N", "AC": "L", "PR": "L", "UI": "N", "S": "U", "C": "H", "I": "L", "A": "N"}
     baseC = {"AV": "A", "AC": "H", "PR": "H", "UI": "R", "S": "C", "C": "L", "I": "H", "A": "H"}
@@ -161,9 +162,9 @@ def v2_tables(tier, seed):
     req27 = [dim("2", m) for m in ["CR", "IR", "AR"]]
     t48 = list(itertools.product(V["2"]["E"], V["2"]["RL"], V["2"]["RC"]))
     e20 = list(itertools.product(V["2"]["CDP"], V["2"]["TD"]))
-    # base/temporal: all 729 x 100 temporal spellings (incl. absent) and the transpose
+    # base/temporal: all 729 x 100 temporal spellings (incl. absent), in two layouts
     tabs.append(header("2", -1, {}, b3, cia + tmp_sp))
-    tabs.append(header("2", -1, {}, cia + tmp_sp, b3))
+    tabs.append(header("2", -1, {}, tmp_sp, b3 + cia))
     if tier == "quick":
         # environmental: every base x every L/M/H requirement triple (= every base and adjusted base
         # value) x seeded temporal / environmental cases; four differently seeded tables
